@@ -20,7 +20,7 @@ ASSUMPTIONS = ["Range headers inside the clean grammar (digits only, <= 18 digit
 MANIFEST = {
     "engine": "e2e",
     "text": "partial: for the model of range_iter/packRange/canPackMoreRanges/getNextRangeOffset/lengthToSend over ANY store delivery schedule "
-            "(theorems honoured_wire_exact, content_length_exact, canonize_matches_rfc, parts_cover_requested, decision_200_or_206) the 206 body is "
+            "(theorems honoured_wire_exact, content_length_exact, parts_are_requested_satisfiable, parts_cover_requested, respond_status, serveStored_sound) the 206 body is "
             "exactly the requested slices with their framing, Content-Length is exact, and the parts are the satisfiable requested ranges; an "
             "ignored range yields the complete object unless the object is swapped in from disk with a positive lowest range offset "
             "(ignored_wire_full_partial + ignored_wire_counterexample: known finding C15-disk-hit-ignored-range-skips-first-buffer); the model "
@@ -180,11 +180,18 @@ def exhaustive_cases(tier):
         for mode in modes:
             for s in u:
                 yield line(mode, "GET", n, 5, 1, "cl", b"bytes=" + spec_text(s), "-", 0, 1)
+            k = 0
             for s in u:
                 for t in u:
-                    if tier != "thorough" and (hash((s, t, mode)) % 5):
+                    k += 1
+                    if tier != "thorough" and (k + len(mode)) % 5:
                         continue
                     yield line(mode, "GET", n, 5, 1, "cl", b"bytes=" + spec_text(s) + b"," + spec_text(t), "-", 0, 1)
+
+
+def exhaustive(tier):
+    """thorough: every range set of <= 2 specs over objects of 0, 1 and 3 bytes in three store states"""
+    return tier == "thorough"
 
 
 def mutate(rng, l):
@@ -239,10 +246,23 @@ def in_scope(l):
     return len(t) == 10 and (t[6] == "-" or clean_or_invalid(unhx(t[6])))
 
 
+def prone(l):
+    """scenarios of the class of the known finding (disk-only hit, positive lowest offset): the framework examines only the first 40
+    failing cases, so these go last and cannot hide a new failure"""
+    sc = H.parse_line(l)
+    return bool(sc and sc["mode"] == "disk" and sc["range"] is not None and lowest_offset(H.origin_specs(sc["range"])) > 0)
+
+
 def cases(rng, tier):
+    late = []
     for l in all_cases(rng, tier):
-        if in_scope(l):
+        if not in_scope(l):
+            continue
+        if prone(l):
+            late.append(l)
+        else:
             yield l
+    yield from late
 
 
 def all_cases(rng, tier):
